@@ -88,6 +88,14 @@ static inline void F_(_clear)(MP_ *P, M_ *m)
     m->size = 0;
 }
 
+/* specification helper: number of live nodes */
+static inline uint64_t F_(_pool_alive)(const MP_ *P)
+{
+    uint64_t n = 0;
+    for (cstl_iter i = 0; i < CSTL_NP; i++) if (P->alive[i]) n++;
+    return n;
+}
+
 #undef M_
 #undef MP_
 #undef MN_
